@@ -86,16 +86,23 @@ mod k {
         kani::cover!(true, "every call returned");
     }
 
-    /// VERIF: {"p":"C19","tier":"quick","fns":["dhcp::config::Config::parse_subnet","dhcp::config::Config::parse_number","dhcp::config::Config::parse_routes","dhcp::config::Config::parse_policies"],"bounds":"each parser on, one after the other: `[~]`, `[\"a\",\"b\"]`, `[]`, the empty mapping. (`[` the empty mapping `]`, i.e. one policy with every default, is NOT covered: building Policy::default() - two HashMaps, a Mutex - times out)","oracle":"`[]` => no routes / no policies; everything else => Err(InvalidConfig); never a panic","stubs":["alloc::fmt::format -> empty string (message text only)","std::hash::RandomState::new -> fixed keys (creating the empty Hash)"],"covers":1,"unwind":6}
+    /// VERIF: {"p":"C19","tier":"quick","fns":["dhcp::config::Config::parse_subnet","dhcp::config::Config::parse_number","dhcp::config::Config::parse_routes","dhcp::config::Config::parse_policies"],"bounds":"each parser on `[]` and on the empty mapping (e.g. `dhcp-policies: []`, `apply-routes: []`, `match-subnet: []`). (A list holding the empty mapping, i.e. one policy with every default, is NOT covered: building Policy::default() - two HashMaps, a Mutex - times out)","oracle":"`[]` => no routes / no policies; everything else => Err(InvalidConfig); never a panic","stubs":["alloc::fmt::format -> empty string (message text only)","std::hash::RandomState::new -> fixed keys (creating the empty Hash)"],"covers":1,"unwind":6}
     #[kani::proof]
     #[kani::unwind(6)]
     #[kani::stub(alloc::fmt::format, empty_format)]
     #[kani::stub(std::hash::RandomState::new, fixed_random_state)]
-    fn c19_dhcp_parsers_wrong_collection() {
-        wrong_type_on(KIND_ARR_NULL);
-        wrong_type_on(KIND_ARR_STRS);
+    fn c19_dhcp_parsers_empty_collections() {
         wrong_type_on(KIND_ARR_EMPTY);
         wrong_type_on(KIND_HASH_EMPTY);
+        kani::cover!(true, "every call returned");
+    }
+
+    /// VERIF: {"p":"C19","tier":"experimental","fns":["dhcp::config::Config::parse_subnet","dhcp::config::Config::parse_number","dhcp::config::Config::parse_routes","dhcp::config::Config::parse_policies"],"bounds":"each parser on the NON-empty sequence `[~]` (e.g. `dhcp-policies: [~]`, `apply-routes: [~]`)","oracle":"Err(InvalidConfig); never a panic","stubs":["alloc::fmt::format -> empty string (message text only)"],"covers":1,"unwind":6}
+    #[kani::proof]
+    #[kani::unwind(6)]
+    #[kani::stub(alloc::fmt::format, empty_format)]
+    fn c19_dhcp_parsers_sequence_of_null() {
+        wrong_type_on(KIND_ARR_NULL);
         kani::cover!(true, "every call returned");
     }
 
